@@ -14,7 +14,7 @@ use crate::gen::*;
 use crate::refmodel::framing::{decide, Framing};
 use crate::refmodel::reqvalid::{self, ReqFacts};
 
-pub const RULE: &str = "scenarios = requests (9 methods x {1.0,1.1} x Expect {no,yes} x send-body-despite-method {no,yes} x framing header {none, content-length: 3, transfer-encoding: chunked}; rejected ones are kept and must stay in SendRequest) x server behaviours (interim 100 in time / late via give-up, silent server, refusal bare 403 / 403 with fields, final status {200,204,304,404,302 with Location,302 without,307 with Location} x version {1.0,1.1} x body {no framing header, Content-Length: 0, Content-Length: 3, chunked}); coarse I/O (whole message or cuts after the status line / after the head / mid-body; thorough: 1-byte arrivals too); in every state: all permitted calls incl. proceed() on a clone whether or not ready, head write after completion, finishing write after the end, reads after the end, as_new_flow with both policies (twice) followed by a complete second exchange on the new flow; successor state compared with the documented graph at every edge; every state must reach Cleanup. distinct = distinct (scenario, final observation)";
+pub const RULE: &str = "scenarios = requests (9 methods x {1.0,1.1} x Expect {no,yes} x send-body-despite-method {no,yes} x framing header {none, content-length: 3, content-length: 0, transfer-encoding: chunked}; rejected ones are kept and must stay in SendRequest) x server behaviours (interim 100 in time / late via give-up, silent server, refusal bare 403 / 403 with fields, final status {200,204,304,404,302 with Location,302 without,307 with Location} x version {1.0,1.1} x body {no framing header, Content-Length: 0, Content-Length: 3, chunked}); coarse I/O (whole message or cuts after the status line / after the head / mid-body; thorough: 1-byte arrivals too); in every state: all permitted calls incl. proceed() on a clone whether or not ready, head write after completion, finishing write after the end, reads after the end, as_new_flow with both policies (twice) followed by a complete second exchange on the new flow; successor state compared with the documented graph at every edge; every state must reach Cleanup. distinct = distinct (scenario, final observation)";
 
 const METHODS: [&str; 9] = ["GET", "HEAD", "POST", "PUT", "DELETE", "CONNECT", "OPTIONS", "TRACE", "PATCH"];
 
@@ -24,9 +24,13 @@ fn requests() -> Vec<(ReqSpec, bool)> {
         for ver in ["1.0", "1.1"] {
             for expect in [false, true] {
                 for despite in [false, true] {
-                    for fr in [ReqFraming::Default, ReqFraming::Length(3), ReqFraming::ExplicitChunked] {
+                    for fr in [ReqFraming::Default, ReqFraming::Length(3), ReqFraming::Length(0), ReqFraming::ExplicitChunked] {
                         let r = req(m, ver, fr.clone(), 3, expect, false, despite);
-                        let cls: Vec<&[u8]> = if matches!(fr, ReqFraming::Length(_)) { vec![b"3"] } else { vec![] };
+                        let cls: Vec<&[u8]> = match fr {
+                            ReqFraming::Length(3) => vec![b"3"],
+                            ReqFraming::Length(_) => vec![b"0"],
+                            _ => vec![],
+                        };
                         let valid = reqvalid::check(&ReqFacts { version: ver, method: m, hosts: vec![], content_lengths: cls, te_chunked: fr == ReqFraming::ExplicitChunked, despite_method: despite, call_with_body: None }).is_ok();
                         v.push((r, valid));
                     }
@@ -155,7 +159,7 @@ fn check_rejected(cfg: &ReqCfg) -> Option<(String, String)> {
 pub fn run(tier: Tier) -> Report {
     let cfgs = build(tier);
     crate::engine::WD_LIMIT_S.store(120, std::sync::atomic::Ordering::Relaxed);
-    let lim = Limits { max_states: 1_000_000, keep_final_traces: 2, keep_state_traces: 2, check_coreach: true, ..Default::default() };
+    let lim = Limits { max_states: 1_000_000, keep_final_traces: 2, keep_state_traces: 2, check_coreach: true, probe_every: 8, ..Default::default() };
     let mut rep = run_exchanges(cfgs, &lim, false, |c| c.to_json());
     let fs = rep.extra.get("final_states").and_then(|v| v.as_u64()).unwrap_or(0);
     rep.guard("final states reached", fs > 0);
